@@ -1,0 +1,39 @@
+//go:build verif
+// +build verif
+
+package network
+
+import (
+	"strconv"
+
+	"com.tuntun.rangers/node/src/common"
+	"com.tuntun.rangers/node/src/middleware/log"
+)
+
+// Exports for the C09 correspondence harness (wire codecs are lossless and total): the outer p2p
+// envelope codec (message.go) and the 28-byte frame header codec (conn.go), which are unexported.
+// No behaviour is added; each function only calls the package's own code.
+
+// VerifC09InitLoggers sets the package loggers the way InitNetwork does, without connecting anywhere.
+func VerifC09InitLoggers() {
+	p2pLogger = log.GetLoggerByIndex(log.P2PLogConfig, strconv.Itoa(common.InstanceIndex))
+	bizLogger = log.GetLoggerByIndex(log.P2PBizLogConfig, strconv.Itoa(common.InstanceIndex))
+	txRcvLogger = log.GetLoggerByIndex(log.TxRcvLogConfig, strconv.Itoa(common.InstanceIndex))
+}
+
+// VerifC09UnMarshalMessage is unMarshalMessage.
+func VerifC09UnMarshalMessage(b []byte) (*Message, error) { return unMarshalMessage(b) }
+
+// VerifC09MarshalMessage is marshalMessage.
+func VerifC09MarshalMessage(m Message) ([]byte, error) { return marshalMessage(m) }
+
+// VerifC09LoadMsg is baseConn.loadMsg on a connection-less baseConn.
+func VerifC09LoadMsg(method []byte, sourceId, targetId, nonce uint64, body []byte) []byte {
+	return (&baseConn{}).loadMsg(wsHeader{method: method, sourceId: sourceId, targetId: targetId, nonce: nonce}, body)
+}
+
+// VerifC09UnloadMsg is baseConn.unloadMsg on a connection-less baseConn.
+func VerifC09UnloadMsg(m []byte) (method []byte, sourceId, targetId, nonce uint64, body []byte) {
+	h, b := (&baseConn{}).unloadMsg(m)
+	return h.method, h.sourceId, h.targetId, h.nonce, b
+}
